@@ -1641,7 +1641,8 @@ class ReturnAnnotation(Base):
 # ------------------------------------------------------------------ flip-flop writes the DSL has to understand or refuse
 # MAY_REJECT: the DSL may refuse these designs at elaboration (a pymtl3.dsl.errors exception); if it accepts one, the
 # simulation has to follow the reference under every schedule.
-MAY_REJECT = ("FFVarBit", "FFVarSlice", "FuncCombWriteInFF", "FFAliasWrite")
+MAY_REJECT = ("FFVarBit", "FFVarSlice", "FuncCombWriteInFF", "FFAliasWrite", "AliasAssignWrite", "AliasZip", "AliasNestedLoop",
+              "AliasBranch", "AliasComponent", "AliasRebind", "AliasReversed", "AliasAssignFF")
 # designs whose SIMULATION is wrong on the unchanged tree (known findings of C01): not subjects of the translation checks
 SIM_KNOWN_WRONG = ()
 
@@ -2097,6 +2098,179 @@ class LoopBoundExpression(Base):
         s.p[i] @= s.b[i]
       for i in range(NB - NA + 6):        # 4
         s.q[i] @= s.a[i]
+
+
+# ------------------------------------------------------------------ other local names that stand for a part of the component
+# (MAY_REJECT: the DSL may refuse a form it does not analyse; if it accepts, every schedule has to follow the reference)
+@design(lambda st, a, b, sel, en, reset: (None, {"o": (a + 2) & M8}))
+class AliasAssignWrite(Base):
+  """x = s.w; x @= ...: a wire written through a local name bound by a plain assignment"""
+  def construct(s):
+    s.ports()
+    s.o = OutPort(Bits8)
+    s.w = Wire(Bits8)
+
+    @update
+    def up_aaw_rd():
+      s.o @= s.w + 1
+
+    @update
+    def up_aaw():
+      x = s.w
+      x @= s.a + 1
+
+
+@design(lambda st, a, b, sel, en, reset: (None, {"o": ((a + 1) ^ (b + 1)) & M8}))
+class AliasZip(Base):
+  """for i_, o_ in zip(s.xs, s.ys): o_ @= i_ + 1"""
+  def construct(s):
+    s.ports()
+    s.o = OutPort(Bits8)
+    s.xs = [Wire(Bits8) for _ in range(2)]
+    s.ys = [Wire(Bits8) for _ in range(2)]
+    s.xs[0] //= s.a
+    s.xs[1] //= s.b
+
+    @update
+    def up_az_rd():
+      s.o @= s.ys[0] ^ s.ys[1]
+
+    @update
+    def up_az():
+      for i_, o_ in zip(s.xs, s.ys):
+        o_ @= i_ + 1
+
+
+@design(lambda st, a, b, sel, en, reset: (None, {"o": ((a + 1) + (a + 2)) & M8}))
+class AliasNestedLoop(Base):
+  """for row in s.g: for w in row: w @= ..."""
+  def construct(s):
+    s.ports()
+    s.o = OutPort(Bits8)
+    s.g = [[Wire(Bits8) for _ in range(2)] for _ in range(2)]
+
+    @update
+    def up_anl_rd():
+      s.o @= s.g[0][1] + s.g[1][1]
+
+    @update
+    def up_anl():
+      for i, row in enumerate(s.g):
+        for w in row:
+          w @= s.a + i + 1
+
+
+@design(lambda st, a, b, sel, en, reset: (None, {"o": ((a if en else 0) + 2 * (0 if en else a)) & M8}))
+class AliasBranch(Base):
+  """a local name bound to one of two wires under if / else, then written"""
+  def construct(s):
+    s.ports()
+    s.o = OutPort(Bits8)
+    s.w1 = Wire(Bits8)
+    s.w2 = Wire(Bits8)
+
+    @update
+    def up_ab_rd():
+      s.o @= s.w1 + s.w2 + s.w2
+
+    @update
+    def up_ab():
+      if s.en:
+        x = s.w1
+        y = s.w2
+      else:
+        x = s.w2
+        y = s.w1
+      x @= s.a
+      y @= 0
+
+
+@design(lambda st, a, b, sel, en, reset: (None, {"o": (a + 2) & M8, "p": (a + 1 + b) & M8}))
+class AliasComponent(Base):
+  """m = s.subs[1]; ... m.out: a child read through a local name bound by a plain assignment"""
+  def construct(s):
+    s.ports()
+    s.o = OutPort(Bits8)
+    s.p = OutPort(Bits8)
+    s.subs = [_AliasInc() for _ in range(2)]
+    for m in s.subs:
+      m.in_ //= s.a
+
+    @update
+    def up_ac():
+      m = s.subs[1]
+      s.o @= m.out + 1
+      n = m
+      s.p @= n.out + s.b
+
+
+@design(lambda st, a, b, sel, en, reset: (None, {"o": (a ^ (b + 1)) & M8}))
+class AliasRebind(Base):
+  """x = s.w1; x @= ..; x = s.w2; x @= ..: the local name stands for two wires one after the other"""
+  def construct(s):
+    s.ports()
+    s.o = OutPort(Bits8)
+    s.w1 = Wire(Bits8)
+    s.w2 = Wire(Bits8)
+
+    @update
+    def up_ar_rd():
+      s.o @= s.w1 ^ s.w2
+
+    @update
+    def up_ar():
+      x = s.w1
+      x @= s.a
+      x = s.w2
+      x @= s.b + 1
+
+
+@design(lambda st, a, b, sel, en, reset: (None, {"o": ((a + 1) ^ (a + 2) ^ (a + 2)) & M8}))
+class AliasReversed(Base):
+  """for w in reversed(s.ws) / for w in s.ws[1:]"""
+  def construct(s):
+    s.ports()
+    s.o = OutPort(Bits8)
+    s.ws = [Wire(Bits8) for _ in range(3)]
+
+    @update
+    def up_arv_rd():
+      s.o @= s.ws[0] ^ s.ws[1] ^ s.ws[2]
+
+    @update
+    def up_arv():
+      for w in reversed(s.ws):
+        w @= s.a + 1
+      for w in s.ws[1:]:
+        w @= s.a + 2
+
+
+def _alias_ff_ref(st, a, b, sel, en, reset):
+  r = (a, (b + 1) & M8)
+  return r, {"o": r[0] ^ r[1]}
+
+
+@design(_alias_ff_ref)
+class AliasAssignFF(Base):
+  """r = s.r0; r <<= ...: registers written through a local name bound by a plain assignment / by zip"""
+  def construct(s):
+    s.ports()
+    s.o = OutPort(Bits8)
+    s.r0 = Wire(Bits8)
+    s.rs = [Wire(Bits8) for _ in range(1)]
+    s.bs = [Wire(Bits8) for _ in range(1)]
+    s.bs[0] //= s.b
+
+    @update_ff
+    def ff_aaf():
+      r = s.r0
+      r <<= s.a
+      for q, d in zip(s.rs, s.bs):
+        q <<= d + 1
+
+    @update
+    def up_aaf():
+      s.o @= s.r0 ^ s.rs[0]
 
 
 def sequences():
